@@ -563,6 +563,18 @@ impl Device {
             use sos_core::{VaultCommit, VaultEntry};
             let want = if self.cipher_flips % 2 == 1 { Cipher::XChaCha20Poly1305 } else { Cipher::AesGcm256 };
             let nonce_ok = |n: &Nonce| matches!((n, want), (Nonce::Nonce12(_), Cipher::AesGcm256) | (Nonce::Nonce24(_), Cipher::XChaCha20Poly1305));
+            // the identity folder (folder passwords, signing keys) is converted too
+            match self.account.login_folder_summary().await {
+                Ok(summary) => {
+                    if *summary.cipher() != want {
+                        problems.push(format!(
+                            "{}: after ChangeCipher the identity folder still has cipher {}",
+                            self.label, summary.cipher()
+                        ));
+                    }
+                }
+                Err(e) => problems.push(format!("{}: after ChangeCipher the identity folder cannot be read: {e}", self.label)),
+            }
             for (fname, id) in self.folders.clone() {
                 let folder = self.account.folder(&id).await?;
                 let (cipher, stale_vault) = {
